@@ -1786,7 +1786,10 @@ def m_linalg_norm(interp, A, ord=None, axis=None, **k):
     for v in A.flat:
         v = sym.to_complex(v) if isinstance(v, (SComplex, complex)) else v
         tot = tot + (v.abs2() if isinstance(v, SComplex) else v * v)
-    return lift(tot).to_real().sqrt()
+    r = lift(tot).to_real().sqrt()
+    r.norm_radicand = lift(tot)
+    r.sqrt_of_nonneg = True
+    return r
 
 
 def m_np_array(interp, x, dtype=None, **k):
